@@ -81,7 +81,9 @@ def stimuli(tier, seed, ctx):
         s = _rand_script(rnd)
         s['mode'] = rnd.choice(['finalize', 'start', 'finalize_then_start'])
         s['invalid'] = 'none'
-        s['retry'] = rnd.random() < 0.15
+        # what is missing at the first finalize(): 1 = an event destination, 2 = the source of an
+        # inverter shortcut, 3 = both
+        s['retry'] = rnd.choice([1, 2, 2, 3]) if rnd.random() < 0.2 else 0
         out.append(s)
     for inv in INVALID:
         for _ in range(3 if tier == 'quick' else 30):
@@ -187,7 +189,11 @@ def execute(stim):
         if stim.get('retry'):
             # a destination that does not exist yet: the first finalize() must fail, after the
             # block was added a second finalize() must succeed and resolve everything
-            state['late_event'] = edzed.Event('late_dest', 'put')
+            if stim['retry'] in (1, 3, True):
+                state['late_event'] = edzed.Event('late_dest', 'put')
+            # ... and / or a shortcut to the inverter of a block that does not exist yet
+            if stim['retry'] in (2, 3):
+                state['late_user'] = edzed.And('late_user').connect('_not_late_src')
         elif inv == 'filter_wrong_kind':
             edzed.Or('cdest').connect(name(1))
             cls = getattr(edzed, 'IfNotIitialized', None) or getattr(edzed, 'NotIfInitialized')
@@ -217,7 +223,7 @@ def execute(stim):
     def observe(circuit):
         ids = {name(i): i for i in range(1, n + 1)}
         ids.update({'_not_' + name(i): n + i for i in range(1, n + 1)})
-        helper = {'spare', 'evsrc', 'late_dest'}
+        helper = {'spare', 'evsrc', 'late_dest', 'late_user', 'late_src', '_not_late_src'}
         exist, recs = [], []
 
         def enc(obj):
@@ -333,8 +339,18 @@ def execute(stim):
                     first_failed = True
                 try:
                     edzed.Input('late_dest', initdef=0)
+                    src = edzed.Input('late_src', initdef=0)
                     circuit.finalize()
-                    resolved = state['late_event'].dest.name == 'late_dest'
+                    resolved = 'late_event' not in state or state['late_event'].dest.name == 'late_dest'
+                    user = state.get('late_user')
+                    inv_ = circuit.findblock('_not_late_src') if user else None
+                    resolved = resolved and (user is None or isinstance(inv_, edzed.Not)
+                                and set(inv_.iconnections) == {src} and inv_ in src.oconnections
+                                and set(user.iconnections) == {inv_} and user in inv_.oconnections
+                                and inv_.inputs.get('_') == (src,) and user.inputs.get('_') == (inv_,)
+                                and len([b for b in circuit.getblocks() if b.name == '_not_late_src']) == 1)
+                    if user is not None and resolved:
+                        inv_.input_signature()      # (raises when the inverter is not connected)
                 except Exception:
                     resolved = False
                 lines.append({'ev': 'retry', 'first_failed': first_failed, 'resolved': bool(resolved)})
